@@ -327,6 +327,14 @@ def handle(rep, res, meta):
                 if not bad and not q:
                     bad, cls, detail = oracle_export(lv, meta['D'], True)
                     q = True
+                if not bad:
+                    # the same pixel NUMBER stored at two levels (different pixels), far-apart pieces
+                    for lv2, D2 in (({1: [0], 2: [0]}, 2), ({2: [5], 3: [5]}, 3), ({1: [3], 3: [3, 40]}, 3)):
+                        bad, cls, detail = oracle_export(lv2, D2, False)
+                        if bad:
+                            lv, q = lv2, False
+                            meta = dict(meta, D=D2)
+                            break
                 rep.finding('C12/%s/%s' % (meta['k'], cls or ob['name'].split(':')[-1]), dict(levels=lv, D=meta['D'], query=q), detail or ob['name'], reproduced=bad)
     if res:
         r = res[0]
@@ -380,7 +388,7 @@ def run(rep):
     rep.end_kernel()
     rep.kernel('K-replay-oracle', functions=[F + ':Region.write_fits', F + ':Region.write_reg', F + ':Region.save', F + ':Region.load'],
                bounds='concrete regions (empty, single pixel, multi-level, full base pixel, depth 1..7, corners just south of the equator) through real astropy/healpy/pickle, before and after a query')
-    cases = [({1: []}, 1), ({1: [3]}, 1), ({2: [5]}, 2), ({1: [0], 3: [40, 41]}, 3), ({2: [1, 2], 4: [200], 5: [1000, 1001]}, 5), ({1: list(range(12))}, 2),
+    cases = [({1: []}, 1), ({1: [3]}, 1), ({2: [5]}, 2), ({1: [0], 3: [40, 41]}, 3), ({1: [0], 2: [0]}, 2), ({2: [5], 3: [5]}, 3), ({2: [1, 2], 4: [200], 5: [1000, 1001]}, 5), ({1: list(range(12))}, 2),
              # pixels with corners at -1 < dec < 0 and RA below 1 h (sign and leading-zero fields of the sexagesimal text)
              ({6: [17405, 17407, 17981, 18017]}, 6), ({7: [69621, 69626]}, 7)]
     for lv, D in cases:
